@@ -16,6 +16,11 @@ META = {
 WHAT = {
     "C12:v2-client-succeeds-while-server-fails": "V2 (file mapping) has no acknowledgement: the client's newSession returns success although the server failed to map the shared memory (queue file removed before the server ran)",
     "C12:stalled-peer-leaks-initializer-goroutine-and-fd": "a peer that stalls mid-handshake: newSession returns the timeout error but the initialiser goroutine stays blocked in a raw read on the dup'ed descriptor, which nobody closes (only a GC finalizer does)",
+    "C12:version-not-the-lower-common-one": "a complete, valid exchange did not end with the lower common protocol version on the real end",
+    "C12:ends-map-different-memory": "a pattern written through one end's mapping is not read through the other end's: the ends do not map the same buffer / queue memory",
+    "C12:error-path-leaves-mapping": "after newSession returned an error the process still maps the session's shared memory",
+    "C12:error-path-leaves-file": "after newSession returned an error the session's /dev/shm file is still there",
+    "C12:error-path-leaves-memfd-descriptor": "after newSession returned an error the client's memfd is still open",
     "C12:error-path-leaves-received-descriptor": "server received an SCM_RIGHTS message with the wrong number of descriptors: it reports an error and never closes the descriptor(s) it did receive",
 }
 
